@@ -1,0 +1,39 @@
+//go:build verif
+// +build verif
+
+package filetracker
+
+// Verification hooks (build tag "verif"): expose the package-internal tracker
+// so that an external harness can drive it. No behaviour is changed.
+
+// VerifNew returns a tracker with no base store and no backing file.
+func VerifNew() *TFile {
+	return newTFile(nil, nil, "verif")
+}
+
+// VerifTrackWrite records a write of length bytes at offset.
+func (t *TFile) VerifTrackWrite(offset, length int64) {
+	t.trackWrite(offset, length)
+}
+
+// VerifGetRangeToRead returns the contiguous length readable from offset and
+// whether it comes from the mutable (written) layer.
+func (t *TFile) VerifGetRangeToRead(offset, length int64) (int64, bool) {
+	return t.getRangeToRead(offset, length)
+}
+
+// VerifMarker is one key of the tracker.
+type VerifMarker struct {
+	Offset  int64
+	IsStart bool
+}
+
+// VerifMarkers dumps the tracker keys in key order.
+func (t *TFile) VerifMarkers() []VerifMarker {
+	out := make([]VerifMarker, 0, t.tracker.Len())
+	t.tracker.Root().Walk(func(k []byte, v interface{}) bool {
+		out = append(out, VerifMarker{Offset: getOffset(k), IsStart: v.(bool)})
+		return false
+	})
+	return out
+}
